@@ -92,6 +92,10 @@ POISON = Poison()
 UNIT = T([])
 
 
+class NotRecognised(Exception):
+    """a lemma harness does not find the loop / locals it is written for"""
+
+
 class Abort(Exception):
     """the engine cannot continue soundly (unmodelled construct): run is inconclusive"""
 
